@@ -52,8 +52,8 @@ class _TableSubset(SubsetProblem):
         """the fixture's private objective data (NOT a library attribute)"""
         self._t_pos = {int(c): i for i, c in enumerate(spec["cand"])}
         self._t_obj = [(list(map(float, o["s"])), o.get("pair"), o.get("posw"), o.get("opair")) for o in spec["obj"]]
-        self._t_ineq = [(list(map(float, c["w"])), float(c["cap"]), c.get("pw")) for c in spec.get("ineq", [])]
-        self._t_eq = [(list(map(float, c["w"])), float(c["target"]), c.get("pw")) for c in spec.get("eq", [])]
+        self._t_ineq = [(list(map(float, c["w"])), float(c["cap"]), c.get("pw"), bool(c.get("signed"))) for c in spec.get("ineq", [])]
+        self._t_eq = [(list(map(float, c["w"])), float(c["target"]), c.get("pw"), c.get("scale")) for c in spec.get("eq", [])]
 
     def evalfn(self, x, *args, **kwargs):
         self.n_evalfn += 1
@@ -81,17 +81,17 @@ class _TableSubset(SubsetProblem):
                     t += opair[ix[a]][ix[a + 1]]
             obj[j] = t
         g = numpy.empty(len(self._t_ineq))
-        for j, (w, cap, pw) in enumerate(self._t_ineq):
+        for j, (w, cap, pw, signed) in enumerate(self._t_ineq):
             t = 0.0
             for a in range(m):
                 t += w[ix[a]] * (1.0 if pw is None else pw[a % len(pw)])
-            g[j] = t - cap if t > cap else 0.0
+            g[j] = t - cap if (signed or t > cap) else 0.0          # signed: the slack itself (negative when feasible)
         h = numpy.empty(len(self._t_eq))
-        for j, (w, tg, pw) in enumerate(self._t_eq):
+        for j, (w, tg, pw, scale) in enumerate(self._t_eq):
             t = 0.0
             for a in range(m):
                 t += w[ix[a]] * (1.0 if pw is None else pw[a % len(pw)])
-            h[j] = abs(t - tg)
+            h[j] = abs(t - tg) if scale is None else scale * (t - tg)   # scale: signed, within pymoo's 1e-4 equality tolerance
         return self.obj_wt * obj, self.ineqcv_wt * g, self.eqcv_wt * h
 
 
@@ -111,20 +111,20 @@ def _vec_eval(self, x):
             t += o["a"][i] * d * d + o["b"][i] * v
         obj[j] = t
     g = numpy.empty(len(self._t_ineq))
-    for j, (w, cap) in enumerate(self._t_ineq):
+    for j, (w, cap, signed) in enumerate(self._t_ineq):
         t = sum(wi * v for wi, v in zip(w, xs))
-        g[j] = t - cap if t > cap else 0.0
+        g[j] = t - cap if (signed or t > cap) else 0.0
     h = numpy.empty(len(self._t_eq))
-    for j, (w, tg) in enumerate(self._t_eq):
+    for j, (w, tg, scale) in enumerate(self._t_eq):
         t = sum(wi * v for wi, v in zip(w, xs))
-        h[j] = abs(t - tg)
+        h[j] = abs(t - tg) if scale is None else scale * (t - tg)
     return self.obj_wt * obj, self.ineqcv_wt * g, self.eqcv_wt * h
 
 
 def _vec_retable(self, spec):
     self._t_obj = spec["obj"]
-    self._t_ineq = [(list(map(float, c["w"])), float(c["cap"])) for c in spec.get("ineq", [])]
-    self._t_eq = [(list(map(float, c["w"])), float(c["target"])) for c in spec.get("eq", [])]
+    self._t_ineq = [(list(map(float, c["w"])), float(c["cap"]), bool(c.get("signed"))) for c in spec.get("ineq", [])]
+    self._t_eq = [(list(map(float, c["w"])), float(c["target"]), c.get("scale")) for c in spec.get("eq", [])]
 
 
 def _vec_init(self, spec, base, dtype):
@@ -300,10 +300,36 @@ def improving_exchange(prob, x, cand):
     return None
 
 
+def ref_descent_steps(prob, start, cand):
+    """number of exchanges a steepest-descent climber (best strictly improving single exchange per sweep, first best on ties)
+    makes from `start` before no exchange improves (cv, score)"""
+    S = [int(v) for v in start]
+    steps = 0
+    while True:
+        best = cv_score(prob, numpy.array(S, dtype="int64"))
+        move = None
+        for i in range(len(S)):
+            for c in cand:
+                c = int(c)
+                if c in S:
+                    continue
+                T = list(S)
+                T[i] = c
+                got = cv_score(prob, numpy.array(T, dtype="int64"))
+                if got < best:
+                    best, move = got, (i, c)
+        if move is None:
+            return steps
+        S[move[0]] = move[1]
+        steps += 1
+
+
 def total_cv(g, h):
     g = numpy.asarray(g, dtype=float)
     h = numpy.asarray(h, dtype=float)
-    return float(numpy.maximum(g, 0.0).sum() + numpy.abs(h).sum())
+    h = numpy.abs(h)
+    h = numpy.where(h <= 1e-4, 0.0, h)          # pymoo's equality tolerance
+    return float(numpy.maximum(g, 0.0).sum() + h.sum())
 
 
 def dominated_pair(F, CV):
